@@ -28,6 +28,8 @@ SPEC = dict(
             mutate=P(8000, 80000, 4, 16),
             limits=P(3000, 20000, 2, 4),
         )),
+        dict(kind="script", name="c13_pydiff", script="props/c13_pydiff.py", needs=["c13_json"],
+             quick=dict(args=[3000]), thorough=dict(args=[200000])),
         fuzz("fuzz_json", "harness/fuzz_json.cpp", dict(runs=400000, procs=4, max_len=512, max_seconds=45),
              dict(runs=30000000, procs=16, max_len=2048, max_seconds=900), corpus="corpus/C13"),
     ],
